@@ -46,7 +46,9 @@ STRICT = {"diff_s", "diff_v", "advdiff_ss", "advdiff_vm", "hyp0", "hyp1"}
 
 def strata(tier):
     ns = {1: [9, 12], 2: [5, 6], 3: [3, 4]} if tier == "quick" else {1: [3, 4, 9, 16, 33, 40], 2: [3, 4, 7, 8, 13, 16], 3: [3, 4, 5, 6, 9, 10]}
-    return [dict(id="%s-D%d-N%d" % (v, D, N), v=v, D=D, N=N) for v in VARIANTS for D in (1, 2, 3) for N in ns[D]]
+    out = [dict(id="%s-D%d-N%d" % (v, D, N), v=v, D=D, N=N) for v in VARIANTS for D in (1, 2, 3) for N in ns[D]]
+    out += [dict(id="%s-D%d-anyN" % (v, D), v=v, D=D, N="any") for i, v in enumerate(VARIANTS) for D in (1, 2, 3) if tier != "quick" or D == 1 + i % 3]
+    return out
 
 
 def psd(D):
